@@ -476,6 +476,27 @@ theorem C26_cache_hit_file (E : Env) (hE : E.Ok) (ops ops' : List Op) (f : Strin
   rw [ea]
   exact C26_cache_hit_until E hE ops ops' d.name n' kw m hcase hq h'
 
+/-- **With arguments, `metamodel_for_file` gives a factory-registered language a fresh,
+then-cached instance**: if `d`, the one live language accepting `f`, has a factory,
+`metamodel_for_file(f, **kw)` with non-empty `kw` answers an object made by `d`'s factory from
+exactly `kw`, different from every meta-model object handed out earlier, and that object is
+what `metamodel_for_language(n')` answers right afterwards under any spelling. -/
+theorem C26_cache_fresh_file (E : Env) (hE : E.Ok) (ops : List Op) (f : String) (kw : Nat) (d : LangDesc)
+    (hkw : kw ≠ 0) (hu : UniqueMatch E (live E ops) f d) (hf : d.mm = .factory) :
+    ∃ i, answer E ops (.mmForFile f kw) = .mm (.made i d.uid kw) ∧
+      (∀ r, r ∈ (run E St.init ops).2 → ∀ i' b w, MM.made i' b w ∈ r.mmObjs → i' ≠ i) ∧
+      ∀ n', E.lower n' = E.lower d.name →
+        answer E (ops ++ [.mmForFile f kw]) (.mmLang n' 0) = .mm (.made i d.uid kw) := by
+  obtain ⟨i, h1, h2⟩ := C26_cache_fresh E hE ops d.name kw d hkw hu.1 rfl hf
+  have e := (C26_mm_for_file E hE ops f kw).1 d hu
+  have h1' : answer E ops (.mmForFile f kw) = .mm (.made i d.uid kw) := by
+    unfold answer at h1 ⊢
+    rw [e]; exact h1
+  refine ⟨i, h1', h2, fun n' hn' => ?_⟩
+  have := C26_cache_hit_file E hE ops [] f d n' kw _ hu hn' rfl h1'
+  unfold answer
+  rw [this]
+
 /-- **`metamodels_for_file` element by element.** After any history let `ds` be
 what `languages_for_file(f)` answers (by `C26_for_file_exact`: each live language
 accepting `f`, once).  Then `metamodels_for_file(f)` answers a list exactly when
